@@ -11,7 +11,8 @@
 // tols:   comma separated hex bit patterns of the ToleranceXY arguments (first is always absent = "-")
 // obs:    per tolerance entry and per ignoreOrder in {0,1}: ee(G,H) ee(H,G) ee(G,G) ee(H,H) as 0/1/p
 // wkbeq:  1 when AsBinary of G and H are equal after writing -0 as +0
-// expect: by construction: P1/P0 (no options must be true/false), I1/I0 (IgnoreOrder), ? unknown
+// expect: by construction: P1/P0 (no options must be true/false), I1/I0 (IgnoreOrder), T0 (false under
+//         every listed tolerance, with and without IgnoreOrder), ? unknown
 package main
 
 import (
@@ -198,6 +199,65 @@ func genRing(r *lib.Rng, ct geom.CoordinatesType, scale float64, zm bool) *N {
 	}
 	l.C = append(l.C, l.C[0])
 	return l
+}
+
+// genBigRing: a simple closed ring of 17..40 vertices whose ordinates are not dyadic (k/10, k/3,
+// k/7, also at large magnitudes), so that any float quantity accumulated along the ring (area,
+// length, centroid) depends on the start vertex and the direction. Star-shaped around the origin
+// by construction (lattice points sorted by angle); simplicity is confirmed in exact arithmetic.
+func genBigRing(r *lib.Rng, ct geom.CoordinatesType) *N {
+	dens := []float64{10, 3, 7, 10, 3}
+	mults := []float64{1, 1, 1, 1e6, 1e15, 0x1p60, 1e-9, 1e100}
+	for attempt := 0; attempt < 20; attempt++ {
+		k := r.Range(17, 40)
+		den := dens[r.Intn(len(dens))]
+		mult := mults[r.Intn(len(mults))]
+		type pa struct {
+			x, y int
+			a    float64
+		}
+		var ps []pa
+		for tries := 0; len(ps) < k && tries < 4000; tries++ {
+			x, y := r.Range(-40, 40), r.Range(-40, 40)
+			if x == 0 && y == 0 {
+				continue
+			}
+			a := math.Atan2(float64(y), float64(x))
+			dup := false
+			for _, p := range ps {
+				if p.a == a {
+					dup = true
+					break
+				}
+			}
+			if !dup {
+				ps = append(ps, pa{x, y, a})
+			}
+		}
+		for i := range ps {
+			for j := i + 1; j < len(ps); j++ {
+				if ps[j].a < ps[i].a {
+					ps[i], ps[j] = ps[j], ps[i]
+				}
+			}
+		}
+		l := &N{Kind: lib.KLine, CT: ct}
+		for _, p := range ps {
+			v := [4]float64{float64(p.x) * mult / den, float64(p.y) * mult / den, 0, 0}
+			if ct.Is3D() {
+				v[2] = float64(r.Range(-30, 30)) / den
+			}
+			if ct.IsMeasured() {
+				v[3] = float64(r.Range(-30, 30)) / 3
+			}
+			l.C = append(l.C, v)
+		}
+		l.C = append(l.C, l.C[0])
+		if len(l.C) >= 18 && isSimpleExact(l.C) == '1' {
+			return l
+		}
+	}
+	return genRing(r, ct, 1, true)
 }
 
 func genOpenLine(r *lib.Rng, ct geom.CoordinatesType, scale float64) *N {
@@ -600,6 +660,32 @@ func main() {
 			}
 		case 5, 6: // one member swapped with its neighbour / one random order move
 			g := genMoves(r, ct, scale, 2, 5)
+			if r.Chance(1, 6) {
+				// one move on a large ring with non-dyadic ordinates: bare, as polygon ring (exterior or
+				// hole), or inside a MultiLineString / collection
+				big := genBigRing(r, ct)
+				switch r.Intn(4) {
+				case 0:
+					g = big
+				case 1:
+					g = &N{Kind: lib.KPoly, CT: ct, Kids: []*N{big, genRing(r, ct, 0.125, true)}}
+				case 2:
+					g = &N{Kind: lib.KPoly, CT: ct, Kids: []*N{genRing(r, ct, 0x1p40, true), big, genRing(r, ct, 1, true)}}
+				default:
+					g = &N{Kind: lib.KColl, CT: ct, Kids: []*N{genPt(r, ct, 1), {Kind: lib.KMLine, CT: ct, Kids: []*N{genOpenLine(r, ct, 1), big}}}}
+				}
+				h := clone(g)
+				for _, l := range lines(h) {
+					if len(l.C) >= 18 {
+						rotateRing(l, r.Range(1, len(l.C)-1))
+						if r.Bool() {
+							reverseLine(l)
+						}
+					}
+				}
+				emit(id, "one_move_big_ring", g, h, nil, "I1")
+				break
+			}
 			h := clone(g)
 			applyMoves(r, h, 1)
 			emit(id, "one_move", g, h, nil, "I1")
@@ -656,6 +742,12 @@ func main() {
 			}
 		case 10: // all rotations and reversals of one ring (inside a polygon / alone)
 			ring := genRing(r, ct, scale, r.Bool())
+			rotClass := "all_rotations"
+			if r.Chance(1, 4) {
+				ring = genBigRing(r, ct)
+				rotClass = "all_rotations_big_ring"
+			}
+			asPoly := r.Bool()
 			n := len(ring.C)
 			for k := 0; k < n; k++ {
 				for rv := 0; rv < 2; rv++ {
@@ -665,11 +757,11 @@ func main() {
 						reverseLine(h)
 					}
 					var gg, hh *N = ring, h
-					if r.Bool() {
+					if asPoly {
 						gg = &N{Kind: lib.KPoly, CT: ct, Kids: []*N{clone(ring)}}
 						hh = &N{Kind: lib.KPoly, CT: ct, Kids: []*N{h}}
 					}
-					emit(fmt.Sprintf("%s.%d.%d", id, k, rv), "all_rotations", gg, hh, nil, "I1")
+					emit(fmt.Sprintf("%s.%d.%d", id, k, rv), rotClass, gg, hh, nil, "I1")
 				}
 			}
 		case 11: // one member's emptiness; or the exterior ring exchanged with a hole (not an order move)
@@ -688,19 +780,105 @@ func main() {
 					break
 				}
 			}
+			if r.Chance(1, 2) {
+				// an EMPTY point against a point at the origin (all stored ordinates zero) or, under a
+				// tolerance, within e of the origin: bare, as MultiPoint member, inside collections
+				origin := &N{Kind: lib.KPoint, CT: ct, Full: true, C: [][4]float64{{0, 0, 0, 0}}}
+				if r.Chance(1, 4) {
+					origin.C[0][r.Intn(2)] = math.Copysign(0, -1)
+				}
+				var tols []float64
+				if r.Bool() {
+					j := float64(r.Range(1, 6))
+					switch r.Intn(3) {
+					case 0:
+						origin.C[0][0], origin.C[0][1] = 3*j/8, -4*j/8 // exactly e away
+					case 1:
+						origin.C[0][0] = j / 16
+					}
+					tols = []float64{5 * j / 8, 5 * j / 4, -5 * j / 8, 100}[:r.Range(1, 4)]
+				}
+				empty := &N{Kind: lib.KPoint, CT: ct}
+				wrap := func(p *N, others []*N) *N {
+					switch r.Intn(5) {
+					case 0:
+						return p
+					case 1, 2:
+						m := &N{Kind: lib.KMPoint, CT: ct, Kids: []*N{p}}
+						for _, o := range others {
+							if o.Kind == lib.KPoint {
+								m.Kids = append(m.Kids, o)
+							}
+						}
+						return m
+					case 3:
+						return &N{Kind: lib.KColl, CT: ct, Kids: append([]*N{p}, others...)}
+					default:
+						m := &N{Kind: lib.KMPoint, CT: ct, Kids: []*N{p}}
+						for _, o := range others {
+							if o.Kind == lib.KPoint {
+								m.Kids = append(m.Kids, o)
+							}
+						}
+						return &N{Kind: lib.KColl, CT: ct, Kids: []*N{{Kind: lib.KColl, CT: ct, Kids: []*N{m}}, genOpenLine(r, ct, 1)}}
+					}
+				}
+				var others []*N
+				for c := r.Range(0, 3); c > 0; c-- {
+					if r.Bool() {
+						others = append(others, genPt(r, ct, 1))
+					} else {
+						others = append(others, genMoves(r, ct, 1, 1, 2))
+					}
+				}
+				sub := r.Fork()
+				s1, s2 := *sub, *sub
+				r = &s1
+				others2 := make([]*N, len(others))
+				for i, o := range others {
+					others2[i] = clone(o)
+				}
+				g := wrap(empty, others)
+				r = &s2
+				h := wrap(origin, others2)
+				r = sub
+				if r.Bool() {
+					for _, c := range collections(h) {
+						shuffle(r, c.Kids)
+					}
+				}
+				if r.Bool() {
+					g, h = h, g
+				}
+				emit(id, "empty_vs_origin", g, h, tols, "P0I0T0")
+				break
+			}
 			g := genMoves(r, ct, scale, 2, 4)
 			h := clone(g)
-			var cand []*N
+			var cand, candG []*N
 			walk(h, func(m *N) {
 				if m.Kind <= lib.KPoly && !m.IsEmptyNode() {
 					cand = append(cand, m)
+				}
+			})
+			walk(g, func(m *N) {
+				if m.Kind <= lib.KPoly && !m.IsEmptyNode() {
+					candG = append(candG, m)
 				}
 			})
 			if len(cand) == 0 {
 				emit(id, "same", g, h, nil, "P1I1")
 				break
 			}
-			m := cand[r.Intn(len(cand))]
+			// prefer points: their non-empty counterpart is moved to the origin half of the time
+			pick := r.Intn(len(cand))
+			for t := 0; t < 3 && cand[pick].Kind != lib.KPoint; t++ {
+				pick = r.Intn(len(cand))
+			}
+			m := cand[pick]
+			if m.Kind == lib.KPoint && r.Bool() {
+				candG[pick].C[0] = [4]float64{}
+			}
 			m.Full, m.C, m.Kids = false, nil, nil
 			emit(id, "emptiness", g, h, nil, "P0I0")
 		case 12: // coordinate type
@@ -753,6 +931,8 @@ func main() {
 				break
 			}
 			g := genMoves(r, ct, 1, 2, 3)
+			// stay on the dyadic lattice (genMoves plants one-ulp near-duplicates)
+			mapOrds(g, func(f float64) float64 { return math.Round(f*8) / 8 })
 			h := clone(g)
 			j := float64(r.Range(1, 6))
 			tol := 5 * j / 8
